@@ -805,3 +805,70 @@ def rich_corpus(name, limit, rng, n_synth=None, n_const=None):
     if len(cv) > n_const:
         cv = rng.sample(cv, n_const)
     return nums + extra + cv
+
+
+def synth_alphabet(name, rng, k=3, pool='+*&/Ñ', extra_random=3):
+    """Valid numbers that carry an unusual character of the format's alphabet at some position (found by trying
+    each pool character at each position and repairing the check characters through is_valid())."""
+    mod = get_module(name)
+    out = []
+    seen = set()
+    canon = []
+    for v in corpus(name, limit=k, rng=rng):
+        try:
+            c = mod.validate(v)
+        except Exception:  # noqa: B902
+            continue
+        if isinstance(c, str) and c and c not in canon:
+            canon.append(c)
+    for c in canon:
+        for p in range(len(c)):
+            chars = list(pool) + [rng.choice('ABCDEFGHIJKLMNOPQRSTUVWXYZ0123456789') for _ in range(extra_random)]
+            for ch in chars:
+                if ch == c[p]:
+                    continue
+                cand = c[:p] + ch + c[p + 1:]
+                try:
+                    ok = mod.is_valid(cand) is True
+                except Exception:  # noqa: B902
+                    ok = False
+                if not ok:
+                    cand = _repair(mod, cand)
+                    if cand is None or len(cand) <= p or cand[p] != ch:
+                        continue
+                try:
+                    cc = mod.validate(cand)
+                except Exception:  # noqa: B902
+                    continue
+                if isinstance(cc, str) and cc not in seen and cc not in canon:
+                    seen.add(cc)
+                    out.append(cc)
+    return out
+
+
+def synth_digits_only(name, rng, k=6):
+    """Valid numbers of an alphanumeric format that consist of digits only (rare shape, e.g. MEIDs that look like IMEIs)."""
+    mod = get_module(name)
+    out = []
+    for v in corpus(name, limit=k, rng=rng):
+        try:
+            c = mod.validate(v)
+        except Exception:  # noqa: B902
+            continue
+        if not isinstance(c, str) or c.isdigit():
+            continue
+        cand = ''.join(ch if not ch.isalpha() else rng.choice('0123456789') for ch in c)
+        try:
+            ok = mod.is_valid(cand) is True
+        except Exception:  # noqa: B902
+            ok = False
+        if not ok:
+            cand = _repair(mod, cand)
+        if cand:
+            try:
+                cc = mod.validate(cand)
+            except Exception:  # noqa: B902
+                continue
+            if isinstance(cc, str) and cc not in out:
+                out.append(cc)
+    return out
